@@ -8,7 +8,7 @@ from beziers.point import Point
 
 ID = "C05"
 TOPICS = ["Inter", "Lookup", "Roots", "Affine", "Eval"]
-LEAN_TARGETS = ["BezierVerif.Props.Roots", "BezierVerif.Props.C05", "BezierVerif.Props.C05M", "BezierVerif.Props.C11B", "BezierVerif.Props.Cardano"]
+LEAN_TARGETS = ["BezierVerif.Props.Roots", "BezierVerif.Props.C05", "BezierVerif.Props.C05M", "BezierVerif.Props.C11B", "BezierVerif.Props.Cardano", "BezierVerif.Props.CardanoC"]
 TV_DEFS = ["line_line", "line_tOfPoint", "line_tOfPoint_sworn", "quadraticRoots", "quadraticRoots_unlimited", "quad_rootcoeffs_y", "cubic_rootcoeffs_y",
            "cubic_findRoots_dispatch", "cubic_cardano_roots", "alignmentTransformation", "quad_transformed", "cubic_transformed"]
 RULE = ("(line | quadratic | cubic, line) pairs; curves from the families int, grid, dyadic, float, arch, elevated (degree-elevated lower order), collinear "
@@ -18,13 +18,13 @@ RULE = ("(line | quadratic | cubic, line) pairs; curves from the families int, g
         "either in [1e-4, 1 - 1e-4] (a true crossing) or outside [-1e-4, 1 + 1e-4], the curve is not within 1e-9 of the extent of the carrier as a whole, the crossing angle has |sin| >= 0.02 "
         "(curves; lines: not exactly parallel) and the curve does not lie on the carrier; other pairs are skipped and counted; both receivers; "
         "non-trivial = at least one true crossing; distinct = distinct pair")
-UNPROVED = ["Cardano completeness: that the closed forms list EVERY real root (soundness is proved: cubic_cardano_sound, cubicRoots_cardano_sound); sampled against exact Sturm root counts",
+UNPROVED = ["the negligible-cubic-coefficient branch (|d| <= 1e-6 max|a,b,c|, d != 0): quadratic roots + Newton polish are approximations by design — sampled against exact Sturm root counts",
             "float rounding of the rotation (cos/sin/atan2) and of the root formulas (sampled: residual 1e-6 of the coordinate magnitude)",
             "the isclose zone of nearly vertical lines: the meeting point is placed at x = start.x (error <= 1e-9 relative; sampled, F17)"]
 ASSUMPTIONS = ["math.sqrt / cos / sin / atan2 / acos are the real functions", "crossings in general position (see sampling rule)"]
 LEVEL_TEXT = ("theorems on the regenerated code: line_line_window / line_line_at_most_one (every branch of _line_line_intersections: 131 paths), line_line_eq_model (the whole tree equals a readable transcription of the source), line_line_complete (general position: a meeting point with t1 in [2e-7, 1+2e-7] and t2 in [2e-7, 1) is reported as exactly [t1, t2]), line_line_sound (exact branches: "
               "the reported parameters give the same point on both lines), aligned_y_zero_iff (after alignmentTransformation the y-coordinate vanishes exactly on the "
-              "line's carrier), aligned_ends, quadraticRoots_mem_iff (the solver returns exactly the roots in [0,1]); cubic_cardano_eq_tree + cubic_cardano_sound + cubicRoots_cardano_sound (the regenerated Cardano closed forms, all 11 paths, with the real sqrt / cos / arccos / rpow, produce exact roots; through polish, filter and sort every returned parameter is a root in [0,1]); hand model of the dispatch / curve-line "
+              "line's carrier), aligned_ends, quadraticRoots_mem_iff (the solver returns exactly the roots in [0,1]); cubic_cardano_eq_tree + cubic_cardano_sound + cubicRoots_cardano_sound (the regenerated Cardano closed forms, all 11 paths, with the real sqrt / cos / arccos / rpow, produce exact roots; through polish, filter and sort every returned parameter is a root in [0,1]); CardanoC.cardanoTree_complete + cubic_cardano_complete + cubicRoots_cardano_complete (conversely EVERY real root is produced — three distinct trigonometric roots for negative discriminant, (y-2u)(y+u)^2 for zero, a positive-definite remaining factor for positive — so in the Cardano branch the returned list IS the set of parameters in [0,1] at which the aligned y-polynomial vanishes); hand model of the dispatch / curve-line "
               "loop / range filter (curveLine_window, curveLine_complete, quadLine_sound)")
 LEVEL_NOTE = "trusted: Lean kernel + Mathlib, axioms {propext, Classical.choice, Quot.sound}, translator (validated per run), hand model Model/Inter.lean (correspondence per run)"
 TECHNIQUE = "symbolic tracing to Lean (131-path decision tree) + field / real algebra; hand model of the curve-line loop; exact Sturm oracle for the search"
@@ -239,6 +239,11 @@ def rand_pair(rng, i):
         lpts = line_through(rng, apts, lfam)
     else:
         lpts = oc.rand_seg_pts(rng, 2, lfam)
+    if rng.random() < 0.08:
+        # the same configuration scaled down by an exact power of two (operands 1e-3 .. 1e-5 units long): meeting is scale-covariant
+        k = 2.0 ** -rng.choice([12, 17, 20])
+        apts = [(x * k, y * k) for x, y in apts]
+        lpts = [(x * k, y * k) for x, y in lpts]
     return apts, lpts
 
 
